@@ -100,6 +100,14 @@ def run(ctx, H):
     docs += [("int", l) for l in INT_LITS] + [("float", l) for l in FLOAT_LITS] + [("str", s) for s in STR_LITS]
     nrand = 600 if ctx.tier == "quick" else 8000
     docs += [gen_doc(ctx.rng) for _ in range(nrand)]
+    # long homogeneous runs broken by one element of another kind (vectorised or batched fast paths), and wide objects
+    for n in (15, 16, 17, 63, 64, 65, 128, 129, 300):
+        for run_kind, odd in ((("float", "0.5"), ("int", "0")), (("int", "7"), ("float", "7.0")), (("str", "s"), ("null",)), (("bool", True), ("int", "1"))):
+            for pos in (1, n // 2, n - 1):
+                elems = [run_kind] * n
+                elems[pos] = odd
+                docs.append(("arr", elems))
+        docs.append(("obj", [("k%03d" % i, ("float", "1.5") if i != n // 2 else ("int", "1")) for i in range(n)]))
     obs = C.run_harness(H.binary, [{"mode": "json", "text": text(d)} for d in docs])
     rows = []
     kept = []
